@@ -1,4 +1,5 @@
 import J5V.Bcl.DiffProofs
+import J5V.Bcl.PosLines
 /-!
 # Applying the edits of `FmtDiffs` gives the formatter's text (lemmas for `C19_apply_eq_fmt`)
 
@@ -43,7 +44,7 @@ theorem seg_single (L : List (List Nat)) {a : Nat} (h : a < L.length) :
   unfold seg
   have : a + 1 - a = 1 := by omega
   rw [this, List.drop_eq_getElem_cons h]
-  simp
+  simp only [List.take_succ_cons, List.take_zero, cat_cons, cat_nil, List.append_nil]
 
 theorem seg_drop (L : List (List Nat)) (a : Nat) : cat (L.drop a) = seg L a L.length := by
   unfold seg
@@ -182,5 +183,382 @@ theorem applyLines_loop (L : List (List Nat)) :
         List.nil_append, applyLines, hgt]
       rw [ihto d.toLine (Nat.le_refl _), seg_self, seg_self]
       simp [List.append_assoc]
+
+
+/-- the edits of the merged list, without accumulator -/
+def mergedEdits (L : List (List Nat)) : List Edit → List Edit
+  | [] => []
+  | d :: ds =>
+    (if d.fromLine > 0 then [(⟨0, d.fromLine, []⟩ : Edit)] else []) ++
+    (if seg L d.fromLine d.toLine ≠ d.newText then [d] else []) ++ loopEdits L ds d.toLine
+
+theorem fmtDiffsMerged_eq (L : List (List Nat)) (M : List Edit) (h : FragsWF L.length 0 M) :
+    fmtDiffsMerged L M = .ok (mergedEdits L M) := by
+  cases M with
+  | nil => rfl
+  | cons d ds =>
+    obtain ⟨_, h2, h3, h4⟩ := h
+    simp only [fmtDiffsMerged, mergedEdits]
+    rw [rangeLines_seg h2 h3]
+    simp only []
+    rw [fmtDiffsLoop_eq L ds d.toLine h4]
+    congr 1
+    by_cases hg : d.fromLine > 0 <;> by_cases hx : seg L d.fromLine d.toLine = d.newText <;>
+      simp [hg, hx]
+
+theorem applyLines_merged (L : List (List Nat)) (M : List Edit) (h : FragsWF L.length 0 M) :
+    applyLines L 0 (mergedEdits L M) = joinFrags M none ++ seg L (lastTo M 0) L.length := by
+  cases M with
+  | nil => simp [mergedEdits, applyLines, joinFrags, lastTo]
+  | cons d ds =>
+    obtain ⟨_, h2, h3, h4⟩ := h
+    have ihto := fun c' (hc' : c' ≤ d.toLine) => applyLines_loop L ds d.toLine c' h4 hc' h3
+    simp only [mergedEdits, joinFrags, lastTo, List.nil_append]
+    by_cases hg : d.fromLine > 0 <;> by_cases hx : seg L d.fromLine d.toLine = d.newText
+    · simp only [hg, hx, ne_eq, not_true_eq_false, if_true, if_false, List.append_nil,
+        List.singleton_append, applyLines, seg_self, List.nil_append]
+      rw [ihto d.fromLine (Nat.le_of_lt h2), hx]
+    · simp only [hg, hx, ne_eq, not_false_eq_true, if_true, List.singleton_append, List.cons_append,
+        List.nil_append, applyLines, seg_self]
+      rw [ihto d.toLine (Nat.le_refl _), seg_self]
+      simp [List.append_assoc]
+    · have h0 : d.fromLine = 0 := by omega
+      simp only [hg, hx, ne_eq, not_true_eq_false, if_false, List.nil_append]
+      rw [ihto 0 (Nat.zero_le _), ← hx, h0]
+    · have h0 : d.fromLine = 0 := by omega
+      simp only [hg, hx, ne_eq, not_false_eq_true, if_true, if_false, List.nil_append,
+        List.singleton_append, applyLines]
+      rw [ihto d.toLine (Nat.le_refl _), seg_self, h0, seg_self]
+      simp [List.append_assoc]
+
+/-! ## The merge pass does not change the formatter's text -/
+
+def gapText (p : Option Nat) (from_ : Nat) : List Nat :=
+  match p with
+  | some e => if from_ > e then [cNL] else []
+  | none => []
+
+theorem joinFrags_cons (d : Edit) (ds : List Edit) (p : Option Nat) :
+    joinFrags (d :: ds) p = gapText p d.fromLine ++ d.newText ++ joinFrags ds (some d.toLine) := by
+  cases p <;> rfl
+
+theorem joinFrags_mergeInto (n : Nat) : ∀ (ds : List Edit) (l : Edit) (p : Option Nat),
+    RawWF n l.toLine ds →
+    joinFrags (mergeInto l ds) p = gapText p l.fromLine ++ l.newText ++ joinFrags ds (some l.toLine) ∧
+    ∀ lo, lastTo (mergeInto l ds) lo = lastTo ds l.toLine := by
+  intro ds
+  induction ds with
+  | nil => intro l p _; simp [mergeInto, joinFrags_cons, joinFrags, lastTo]
+  | cons d ds ih =>
+    intro l p h
+    obtain ⟨g1, g2, g3, g4⟩ := h
+    unfold mergeInto
+    split
+    · rename_i hlt
+      have hmax : max l.toLine d.toLine = d.toLine := by omega
+      obtain ⟨i1, i2⟩ := ih ⟨l.fromLine, max l.toLine d.toLine, l.newText ++ d.newText⟩ p
+        (by simp only [hmax]; exact g4)
+      refine ⟨?_, ?_⟩
+      · rw [i1, joinFrags_cons d ds]
+        have : gapText (some l.toLine) d.fromLine = [] := by
+          simp only [gapText]; rw [if_neg (by omega)]
+        simp only [this, hmax, List.nil_append, List.append_assoc]
+      · intro lo; rw [i2 lo]; simp only [hmax, lastTo]
+    · rename_i hge
+      obtain ⟨i1, i2⟩ := ih d (some l.toLine) g4
+      refine ⟨?_, ?_⟩
+      · rw [joinFrags_cons l, i1, joinFrags_cons d ds]
+      · intro lo; simp only [lastTo]; exact i2 _
+
+theorem joinFrags_mergeFrags (n : Nat) (all : List Edit) (h : RawWF n 0 all) :
+    joinFrags (mergeFrags all) none = joinFrags all none ∧
+      lastTo (mergeFrags all) 0 = lastTo all 0 := by
+  cases all with
+  | nil => exact ⟨rfl, rfl⟩
+  | cons d ds =>
+    obtain ⟨_, _, _, g4⟩ := h
+    obtain ⟨i1, i2⟩ := joinFrags_mergeInto n ds d none g4
+    exact ⟨by rw [mergeFrags, i1, joinFrags_cons], by rw [mergeFrags, i2 0]; rfl⟩
+
+/-- what `FmtDiffs` returns, and what applying it line-wise gives -/
+theorem fmtDiffs_applyLines (L : List (List Nat)) (all : List Edit) (h : RawWF L.length 0 all) :
+    ∃ es, fmtDiffs L all = .ok es ∧
+      applyLines L 0 es = joinFrags all none ++ seg L (lastTo all 0) L.length := by
+  have hm := mergeFrags_wf L.length all h
+  refine ⟨mergedEdits L (mergeFrags all), fmtDiffsMerged_eq L _ hm, ?_⟩
+  rw [applyLines_merged L _ hm, (joinFrags_mergeFrags _ all h).1, (joinFrags_mergeFrags _ all h).2]
+
+
+/-! ## Byte offsets (LSP) versus line indices -/
+
+theorem sum_len_cat (ls : List (List Nat)) :
+    (ls.map (fun l => l.length + 1)).sum = (cat ls).length := by
+  induction ls with
+  | nil => rfl
+  | cons l ls ih => simp [ih]; omega
+
+theorem doc_split : ∀ (L : List (List Nat)) (k : Nat), k < L.length →
+    joinWith [cNL] L = cat (L.take k) ++ joinWith [cNL] (L.drop k)
+  | L, 0, _ => by simp
+  | [], k + 1, h => by simp at h
+  | [a], k + 1, h => by simp at h
+  | a :: b :: rest, k + 1, h => by
+    have ih := doc_split (b :: rest) k (by simp at h ⊢; omega)
+    simp only [joinWith, List.take_succ_cons, List.drop_succ_cons, cat_cons]
+    rw [ih]
+    simp [List.append_assoc]
+
+theorem take_take_seg (L : List (List Nat)) {c k : Nat} (h : c ≤ k) :
+    cat (L.take k) = cat (L.take c) ++ seg L c k := by
+  unfold seg
+  have : k = c + (k - c) := by omega
+  conv => lhs; rw [this, List.take_add, cat_append]
+
+theorem lineOffset_lt (L : List (List Nat)) {k : Nat} (h : k < L.length) :
+    lineOffset L k = (cat (L.take k)).length := by
+  unfold lineOffset
+  rw [if_neg (by omega), sum_len_cat]
+
+theorem lineOffset_ge (L : List (List Nat)) {k : Nat} (h : k ≥ L.length) :
+    lineOffset L k = (joinWith [cNL] L).length := by
+  unfold lineOffset
+  rw [if_pos h]
+
+/-- the document text between the starts of lines `c ≤ k < n` -/
+theorem doc_take_drop (L : List (List Nat)) {c k : Nat} (hc : c ≤ k) (hk : k < L.length) :
+    ((joinWith [cNL] L).take (lineOffset L k)).drop (lineOffset L c) = seg L c k := by
+  rw [lineOffset_lt L hk, lineOffset_lt L (by omega), doc_split L k hk, List.take_left,
+    take_take_seg L hc, List.drop_left]
+
+theorem doc_drop (L : List (List Nat)) {c : Nat} (hc : c < L.length) :
+    (joinWith [cNL] L).drop (lineOffset L c) ++ [cNL] = seg L c L.length := by
+  rw [lineOffset_lt L hc]
+  conv => lhs; rw [doc_split L c hc, List.drop_left]
+  rw [joinWith_nl_cat _ (by
+    intro h
+    have := congrArg List.length h
+    simp at this; omega), seg_drop]
+
+theorem applyFrom_lines (L : List (List Nat)) :
+    ∀ (es : List Edit) (c : Nat), c ≤ L.length → EditsWF L.length c es →
+      (∀ e ∈ es, e.fromLine < L.length) →
+      applyFrom (joinWith [cNL] L) L (lineOffset L c) es ++
+        (if lastTo es c < L.length then [cNL] else []) = applyLines L c es := by
+  intro es
+  induction es with
+  | nil =>
+    intro c hc _ _
+    show (joinWith [cNL] L).drop (lineOffset L c) ++ (if c < L.length then [cNL] else []) =
+      seg L c L.length
+    by_cases h : c < L.length
+    · rw [if_pos h, doc_drop L h]
+    · have : c = L.length := by omega
+      subst this
+      rw [if_neg h, lineOffset_ge L (Nat.le_refl _), seg_self]
+      simp
+  | cons e es ih =>
+    intro c hc hwf hlt
+    obtain ⟨h1, h2, h3, h4⟩ := hwf
+    have hf := hlt e (by simp)
+    show ((joinWith [cNL] L).take (lineOffset L e.fromLine)).drop (lineOffset L c) ++ e.newText ++
+        applyFrom (joinWith [cNL] L) L (lineOffset L e.toLine) es ++
+        (if lastTo es e.toLine < L.length then [cNL] else []) =
+      seg L c e.fromLine ++ e.newText ++ applyLines L e.toLine es
+    rw [doc_take_drop L h1 hf, List.append_assoc, ih e.toLine h3 h4 (fun x hx => hlt x (by simp [hx]))]
+
+/-! ## Lines of a text -/
+
+theorem splitLines_cons (r : Nat) (rs : List Nat) : splitLines (r :: rs) =
+    (match splitLines rs with
+     | [] => [[]]
+     | l :: ls => if r = cNL then [] :: l :: ls else (r :: l) :: ls) := rfl
+
+theorem splitLines_append_nl (a b : List Nat) :
+    splitLines (a ++ cNL :: b) = splitLines a ++ splitLines b := by
+  induction a with
+  | nil =>
+    show splitLines (cNL :: b) = _
+    rw [splitLines_cons]
+    cases hb : splitLines b with
+    | nil => exact absurd hb (splitLines_ne_nil b)
+    | cons l ls => simp [splitLines]
+  | cons r a ih =>
+    show splitLines (r :: (a ++ cNL :: b)) = splitLines (r :: a) ++ _
+    rw [splitLines_cons, splitLines_cons, ih]
+    cases ha : splitLines a with
+    | nil => exact absurd ha (splitLines_ne_nil a)
+    | cons l ls =>
+      simp only [List.cons_append]
+      split <;> simp
+
+theorem splitLines_no_nl (l : List Nat) (h : cNL ∉ l) : splitLines l = [l] := by
+  induction l with
+  | nil => rfl
+  | cons r l ih =>
+    have hr : r ≠ cNL := fun e => h (by simp [e])
+    have hl : cNL ∉ l := fun e => h (by simp [e])
+    rw [splitLines_cons, ih hl]
+    simp [hr]
+
+theorem splitLines_cat (B : List (List Nat)) (h : ∀ l ∈ B, cNL ∉ l) :
+    splitLines (cat B) = B ++ [[]] := by
+  induction B with
+  | nil => rfl
+  | cons l B ih =>
+    rw [cat_cons, List.append_assoc]
+    show splitLines (l ++ cNL :: cat B) = _
+    rw [splitLines_append_nl, splitLines_no_nl l (h l (by simp)),
+      ih (fun x hx => h x (by simp [hx]))]
+    simp
+
+theorem splitLines_snoc_nl (x : List Nat) : splitLines (x ++ [cNL]) = splitLines x ++ [[]] := by
+  rw [splitLines_append_nl]; rfl
+
+theorem dropWhile_append_all {α : Type} (p : α → Bool) (a b : List α) (h : ∀ x ∈ a, p x = true) :
+    (a ++ b).dropWhile p = b.dropWhile p := by
+  induction a with
+  | nil => rfl
+  | cons x a ih =>
+    simp only [List.cons_append, List.dropWhile_cons, h x (by simp), if_true]
+    exact ih (fun y hy => h y (by simp [hy]))
+
+theorem stripTrailing_append_blank (blank : List Nat → Bool) (ls B : List (List Nat))
+    (h : ∀ l ∈ B, blank l = true) : stripTrailing blank (ls ++ B) = stripTrailing blank ls := by
+  unfold stripTrailing
+  rw [List.reverse_append, dropWhile_append_all blank _ _ (by simpa using h)]
+
+theorem splitLines_no_nl_mem (s : List Nat) : ∀ l ∈ splitLines s, cNL ∉ l := by
+  induction s with
+  | nil => intro l hl; simp [splitLines] at hl; subst hl; simp
+  | cons r s ih =>
+    rw [splitLines_cons]
+    cases hs : splitLines s with
+    | nil => exact absurd hs (splitLines_ne_nil s)
+    | cons l0 ls =>
+      rw [hs] at ih
+      simp only []
+      by_cases hr : r = cNL
+      · simp only [hr, if_true]
+        intro l hl
+        rcases List.mem_cons.mp hl with rfl | hl
+        · simp
+        · exact ih l hl
+      · simp only [hr, if_false]
+        intro l hl
+        rcases List.mem_cons.mp hl with rfl | hl
+        · have := ih l0 (by simp)
+          simp only [List.mem_cons, not_or]
+          exact ⟨fun e => hr e.symm, this⟩
+        · exact ih l (by simp [hl])
+
+theorem joinFrags_ends (all : List Edit) (hne : all ≠ []) (p : Option Nat)
+    (h : ∀ d ∈ all, ∃ x, d.newText = x ++ [cNL]) : ∃ y, joinFrags all p = y ++ [cNL] := by
+  induction all generalizing p with
+  | nil => exact absurd rfl hne
+  | cons d ds ih =>
+    rw [joinFrags_cons]
+    cases ds with
+    | nil =>
+      obtain ⟨x, hx⟩ := h d (by simp)
+      exact ⟨gapText p d.fromLine ++ x, by simp [joinFrags, hx]⟩
+    | cons d2 ds2 =>
+      obtain ⟨y, hy⟩ := ih (by simp) (some d.toLine) (fun x hx => h x (by simp [hx]))
+      exact ⟨gapText p d.fromLine ++ d.newText ++ y, by rw [hy]; simp⟩
+
+theorem mergedEdits_from_lt (L : List (List Nat)) (M : List Edit) (h : FragsWF L.length 0 M) :
+    ∀ e ∈ mergedEdits L M, e.fromLine < L.length := by
+  have loop : ∀ (ds : List Edit) (lastEnd : Nat), FragsWF L.length lastEnd ds →
+      ∀ e ∈ loopEdits L ds lastEnd, e.fromLine < L.length := by
+    intro ds
+    induction ds with
+    | nil => intro _ _ e he; simp [loopEdits] at he
+    | cons d ds ih =>
+      intro lastEnd hw e he
+      obtain ⟨h1, h2, h3, h4⟩ := hw
+      simp only [loopEdits, List.mem_append] at he
+      rcases he with (he | he) | he
+      · split at he
+        · simp at he; subst he; simp only; omega
+        · cases he
+      · split at he
+        · simp at he; subst he; omega
+        · cases he
+      · exact ih d.toLine h4 e he
+  cases M with
+  | nil => intro e he; simp [mergedEdits] at he
+  | cons d ds =>
+    obtain ⟨_, h2, h3, h4⟩ := h
+    intro e he
+    simp only [mergedEdits, List.mem_append] at he
+    rcases he with (he | he) | he
+    · split at he
+      · simp at he; subst he; simp only; omega
+      · cases he
+    · split at he
+      · simp at he; subst he; omega
+      · cases he
+    · exact loop ds d.toLine h4 e he
+
+/-- **Applying the edits gives the formatter's text up to trailing blank lines**, for any source lines
+and fragment list with well-formed ranges, provided the lines after the last fragment are blank. -/
+theorem apply_eqT (blank : List Nat → Bool) (hb : blank [] = true) (L : List (List Nat))
+    (hL : L ≠ []) (hnl : ∀ l ∈ L, cNL ∉ l) (all : List Edit) (h : RawWF L.length 0 all)
+    (hends : ∀ d ∈ all, ∃ x, d.newText = x ++ [cNL])
+    (htrail : ∀ l ∈ L.drop (lastTo all 0), blank l = true) :
+    ∃ es, fmtDiffs L all = .ok es ∧ EqT blank (applyEdits L es) (joinFrags all none) := by
+  have hm := mergeFrags_wf L.length all h
+  obtain ⟨es, he, hal⟩ := fmtDiffs_applyLines L all h
+  refine ⟨es, he, ?_⟩
+  have hes : es = mergedEdits L (mergeFrags all) := by
+    have := fmtDiffsMerged_eq L _ hm
+    unfold fmtDiffs at he
+    rw [this] at he
+    cases he; rfl
+  obtain ⟨es', he', hwf⟩ := fmtDiffs_spec L all h
+  rw [he] at he'
+  cases he'
+  have hlt : ∀ e ∈ es, e.fromLine < L.length := by
+    rw [hes]; exact mergedEdits_from_lt L _ hm
+  have hF := applyFrom_lines L es 0 (Nat.zero_le _) hwf hlt
+  have h0 : lineOffset L 0 = 0 := by
+    have : 0 < L.length := List.length_pos_iff.mpr hL
+    rw [lineOffset_lt L this]; simp
+  rw [h0, hal] at hF
+  -- `applyEdits L es ++ X = joinFrags all none ++ cat (trailing lines)`
+  have hseg : seg L (lastTo all 0) L.length = cat (L.drop (lastTo all 0)) := (seg_drop L _).symm
+  rw [hseg] at hF
+  have hBnl : ∀ l ∈ L.drop (lastTo all 0), cNL ∉ l := fun l hl => hnl l (List.mem_of_mem_drop hl)
+  unfold EqT
+  -- left side: dropping the optional final newline
+  have hleft : stripTrailing blank (splitLines (applyEdits L es)) =
+      stripTrailing blank (splitLines (joinFrags all none ++ cat (L.drop (lastTo all 0)))) := by
+    rw [← hF]
+    unfold applyEdits
+    split
+    · rw [splitLines_snoc_nl, stripTrailing_append_blank blank _ [[]] (by simpa using hb)]
+    · simp
+  rw [hleft]
+  by_cases hall : all = []
+  · subst hall
+    simp only [joinFrags, List.nil_append]
+    rw [splitLines_cat _ hBnl]
+    have : stripTrailing blank (L.drop (lastTo [] 0) ++ [[]]) = stripTrailing blank [] := by
+      have := stripTrailing_append_blank blank [] (L.drop (lastTo [] 0) ++ [[]]) (by
+        intro l hl
+        rcases List.mem_append.mp hl with h1 | h1
+        · exact htrail l h1
+        · simp at h1; subst h1; exact hb)
+      simpa using this
+    rw [this]
+    show _ = stripTrailing blank [[]]
+    have := stripTrailing_append_blank blank [] [[]] (by simpa using hb)
+    simpa using this.symm
+  · obtain ⟨y, hy⟩ := joinFrags_ends all hall none hends
+    rw [hy, List.append_assoc]
+    show stripTrailing blank (splitLines (y ++ cNL :: cat (L.drop (lastTo all 0)))) = _
+    rw [splitLines_append_nl, splitLines_cat _ hBnl, splitLines_snoc_nl, ← List.append_assoc,
+      stripTrailing_append_blank blank _ [[]] (by simpa using hb),
+      stripTrailing_append_blank blank _ _ htrail,
+      stripTrailing_append_blank blank _ [[]] (by simpa using hb)]
 
 end J5V.Bcl
